@@ -132,16 +132,18 @@ type world struct {
 	mode string
 	c    *cron.Cron
 	vc   *vclock.Clock
+	hold bool // racing: RealClock with timer delivery through the "timer" hook
 
 	clk atomic.Int64
 	mu  sync.Mutex // guards everything below
 
-	ents   []*ent
-	starts []*startRec
-	wakes  []wakeRec
-	arms   int
-	ops    []*opRec
-	gate   chan struct{}
+	ents      []*ent
+	starts    []*startRec
+	wakes     []wakeRec
+	arms      int
+	timerHits int
+	ops       []*opRec
+	gate      chan struct{}
 
 	// hook control
 	yield    int
@@ -150,6 +152,11 @@ type world struct {
 	parkAt   time.Time
 	parked   atomic.Bool
 	resume   chan struct{}
+
+	spinAt  time.Time
+	spinN   int
+	dead    atomic.Bool   // the scheduler goroutine was taken out (spin guard): no further client calls
+	abandon chan struct{} // created OUTSIDE the bubble; closed when the bubble cannot be finished
 
 	viol    bool
 	history []string
@@ -168,6 +175,8 @@ func (w *world) newCron() {
 	opts := []cron.Option{cron.WithLocation(time.UTC), cron.WithSeconds(), cron.WithChain()}
 	if w.vc != nil {
 		opts = append(opts, cron.WithClock(w.vc))
+	} else if w.hold {
+		opts = append(opts, cron.WithClock(holdClock{w: w}))
 	}
 	w.c = cron.New(opts...)
 	w.gate = make(chan struct{})
@@ -176,20 +185,44 @@ func (w *world) newCron() {
 	cron.VerifHook.Store(&h)
 }
 
-// hook runs on the scheduler goroutine at "arm" and "wake".
+// hook runs on the scheduler goroutine at "arm" and "wake", and on a
+// holdClock timer's proxy goroutine at "timer".
 func (w *world) hook(name string) {
 	rec.Progress()
 	w.mu.Lock()
 	now := w.now()
+	// spin guard: a scheduler loop that keeps re-arming and waking without the
+	// clock moving would never let the bubble go idle
+	if now.Equal(w.spinAt) {
+		w.spinN++
+	} else {
+		w.spinAt, w.spinN = now, 0
+	}
+	if w.spinN > 3000 {
+		w.mu.Unlock()
+		w.violation("scheduler-spins-at-one-instant/"+w.mode, fmt.Sprintf("the scheduler loop passed its arm/wake points more than 3000 times at the single instant %s (it re-arms a timer that fires at once and starts nothing)", ft(now)))
+		// take the goroutine out. Client calls in flight stay blocked (one on the
+		// scheduler's channel, holding runningMu, the others on that mutex, which
+		// synctest does not see as a deadlock), so the case is abandoned from outside.
+		if !w.dead.Swap(true) {
+			close(w.abandon)
+		}
+		select {}
+	}
 	switch name {
 	case "wake":
 		w.wakes = append(w.wakes, wakeRec{at: now, stamp: w.stamp()})
 	case "arm":
 		w.arms++
+	case "timer":
+		w.timerHits++
 	}
 	n := 0
 	if w.yield > 0 && w.yieldRng != nil {
 		n = w.yieldRng.Intn(w.yield + 1)
+		if name == "timer" {
+			n = w.yieldRng.Intn(w.yield*10 + 1) // lets client calls of the same instant reach the select first
+		}
 	}
 	park := w.parkHook == name && now.Equal(w.parkAt)
 	if park {
@@ -235,6 +268,9 @@ func (w *world) end(r *opRec) {
 }
 
 func (w *world) add(g int, s schedSpec) *opRec {
+	if w.dead.Load() {
+		return &opRec{kind: "dead", e: &ent{spec: s}}
+	}
 	w.mu.Lock()
 	e := &ent{h: len(w.ents), spec: s, sched: s.parse()}
 	w.ents = append(w.ents, e)
@@ -258,6 +294,9 @@ func (w *world) add(g int, s schedSpec) *opRec {
 }
 
 func (w *world) remove(g int, e *ent, id cron.EntryID) *opRec {
+	if w.dead.Load() {
+		return &opRec{kind: "dead"}
+	}
 	r := w.begin(g, "remove", e, id)
 	w.c.Remove(id)
 	w.end(r)
@@ -265,6 +304,9 @@ func (w *world) remove(g int, e *ent, id cron.EntryID) *opRec {
 }
 
 func (w *world) entries(g int) *opRec {
+	if w.dead.Load() {
+		return &opRec{kind: "dead"}
+	}
 	r := w.begin(g, "entries", nil, 0)
 	snap := w.c.Entries()
 	w.mu.Lock()
@@ -275,6 +317,9 @@ func (w *world) entries(g int) *opRec {
 }
 
 func (w *world) entry(g int, e *ent, id cron.EntryID) *opRec {
+	if w.dead.Load() {
+		return &opRec{kind: "dead"}
+	}
 	r := w.begin(g, "entry", e, id)
 	x := w.c.Entry(id)
 	w.mu.Lock()
@@ -287,6 +332,9 @@ func (w *world) entry(g int, e *ent, id cron.EntryID) *opRec {
 }
 
 func (w *world) start(g int) *opRec {
+	if w.dead.Load() {
+		return &opRec{kind: "dead"}
+	}
 	r := w.begin(g, "start", nil, 0)
 	w.c.Start()
 	w.end(r)
@@ -294,6 +342,9 @@ func (w *world) start(g int) *opRec {
 }
 
 func (w *world) stop(g int) *opRec {
+	if w.dead.Load() {
+		return &opRec{kind: "dead"}
+	}
 	r := w.begin(g, "stop", nil, 0)
 	ctx := w.c.Stop()
 	w.mu.Lock()
@@ -393,7 +444,13 @@ func (w *world) violation(sig, msg string) {
 		return
 	}
 	w.viol = true
-	rec.Violation(w.idx, sig, msg, map[string]any{"mode": w.mode, "history": w.history, "events": w.dump()})
+	rec.Violation(w.idx, sig, msg, map[string]any{"mode": w.mode, "history": w.hist(), "events": w.dump()})
+}
+
+func (w *world) hist() []string {
+	w.mu.Lock()
+	defer w.mu.Unlock()
+	return append([]string(nil), w.history...)
 }
 
 func (w *world) dump() []string {
@@ -423,7 +480,10 @@ func (w *world) dump() []string {
 		}
 		out = append(out, l)
 	}
-	for _, k := range w.wakes {
+	for i, k := range w.wakes {
+		if len(w.wakes) > 300 && i >= 150 && i < len(w.wakes)-150 {
+			continue
+		}
 		out = append(out, fmt.Sprintf("wake at=%s stamp=%d", ft(k.at), k.stamp))
 	}
 	n := len(w.starts)
@@ -443,8 +503,10 @@ type plan struct {
 func TestCheck(t *testing.T) {
 	rec = mon.Open("C05")
 	defer rec.Close()
-	rec.Note("rule", "a case is one history of 10-60 Schedule/AddFunc/Remove/Entries/Entry/Start/Stop/release operations and clock advances run against the real Cron inside a synctest bubble, over 1-8 entries drawn from @every 1/2/3/5/7/2.5s and seconds-resolution specs (equal, nested, co-prime, phase-shifted, unsatisfiable), jobs returning at once or blocking on a gate. (lockstep) default RealClock on virtual time, synctest.Wait after every operation, the multiset of job starts and every Entries/Entry snapshot must EQUAL a reference scheduler built on the real Schedule.Next; sleeps go to exact activation instants, between them and far past them. (jump) the same on internal/vclock, the clock jumps over several activations in one step: one start per due entry per wake-up. (racing) 2-6 goroutines issue operations at chosen virtual instants (mostly whole seconds = activation instants), the scheduler is perturbed at the arm/wake hooks and in 1/3 of the cases parked there while operations are placed; an offline judge sweeps the stamped log: exact activation instants, starts optional only where a Remove of that entry or a Stop shares the instant and stamps do not decide. Non-trivial = at least one job start was observed and compared; distinct = distinct operation list.")
-	rec.Note("require", []string{"starts.compared", "lockstep.entries_compared", "jump.multi_activation_jumps", "jump.starts_once_per_wake", "racing.same_instant.total", "racing.ops_at_activation_instant", "racing.parked.wake", "racing.parked.arm", "stopctx.seen_not_done_while_job_blocked", "stopctx.done_after_jobs_returned", "restart.recomputed", "hook.wake", "hook.arm"})
+	rec.Note("rule", "a case is one history of 10-60 Schedule/AddFunc/Remove/Entries/Entry/Start/Stop/release operations and clock advances run against the real Cron inside a synctest bubble, over 1-8 entries drawn from @every 1/2/3/5/7/2.5s and seconds-resolution specs (equal, nested, co-prime, phase-shifted, unsatisfiable), jobs returning at once or blocking on a gate. (lockstep) default RealClock on virtual time, synctest.Wait after every operation, the multiset of job starts and every Entries/Entry snapshot must EQUAL a reference scheduler built on the real Schedule.Next; sleeps go to exact activation instants, between them and far past them. (jump) the same on internal/vclock, the clock jumps over several activations in one step: one start per due entry per wake-up. (racing) 2-6 goroutines issue operations at chosen virtual instants (mostly whole seconds = activation instants), the scheduler is perturbed at the arm/wake hooks and in 1/3 of the cases parked there while operations are placed; in half of the cases the RealClock's timers deliver through a proxy (hook timer) that can hold a fired timer within its instant, so that a client call of the same instant reaches the select first; an offline judge sweeps the stamped log: exact activation instants, starts optional only where a Remove of that entry or a Stop shares the instant and stamps do not decide. Non-trivial = at least one job start was observed and compared; distinct = distinct operation list.")
+	rec.Observe("jump: number of armed vclock timers after an operation (more than one would mean an abandoned timer); counted as jump.observed_more_than_one_armed_timer, not judged - the statement does not speak about timers")
+	rec.Observe("order of the Entries() slice (sorted by Next as of the last loop iteration, unstable among equals): snapshots are compared as sets keyed by ID")
+	rec.Note("require", []string{"starts.compared", "lockstep.entries_compared", "jump.multi_activation_jumps", "jump.starts_once_per_wake", "racing.same_instant.total", "racing.ops_at_activation_instant", "racing.parked.wake", "racing.parked.arm", "racing.parked.timer", "racing.same_instant.remove_vs_wake.started", "racing.same_instant.remove_vs_wake.not_started", "racing.same_instant.stop_vs_wake.not_started", "racing.same_instant.stop_vs_wake.wake_first_all_due_required", "racing.same_instant.entries_vs_transition.saw_pre", "racing.same_instant.entries_vs_transition.saw_post", "stopctx.seen_not_done_while_job_blocked", "stopctx.done_after_jobs_returned", "restart.recomputed", "hook.wake", "hook.arm"})
 	nLock := mon.Pick(900, 45000)
 	nJump := mon.Pick(500, 25000)
 	nRace := mon.Pick(600, 30000)
@@ -475,15 +537,29 @@ func TestCheck(t *testing.T) {
 // bubble runs fn in a synctest bubble on a goroutine of its own: when the race
 // detector reports inside a bubble the testing package ends the calling
 // goroutine (runtime.Goexit), which must not end TestCheck - the report is in
-// the race log and is judged by the driver.
-func bubble(t *testing.T, fn func()) (res mon.BubbleResult) {
-	done := make(chan struct{})
+// the race log and is judged by the driver. A bubble whose scheduler goroutine
+// was taken out by the spin guard is abandoned (it is inert: its goroutines are
+// blocked for good and every further harness call on that world is a no-op).
+func bubble(t *testing.T, w *world, fn func()) mon.BubbleResult {
+	w.abandon = make(chan struct{})
+	done := make(chan mon.BubbleResult, 1)
 	go func() {
-		defer close(done)
+		var res mon.BubbleResult
+		defer func() { done <- res }()
 		res = mon.Bubble(t, fn)
 	}()
-	<-done
-	return res
+	select {
+	case res := <-done:
+		return res
+	case <-w.abandon:
+		select {
+		case res := <-done:
+			return res
+		case <-time.After(100 * time.Millisecond): // plumbing only, no oracle depends on it
+			rec.Count("abandoned_bubbles_after_spin_guard", 1)
+			return mon.BubbleResult{}
+		}
+	}
 }
 
 func finishCase(idx int, w *world, res mon.BubbleResult, key string) {
@@ -497,6 +573,7 @@ func finishCase(idx int, w *world, res mon.BubbleResult, key string) {
 	nontrivial := len(w.starts) > 0
 	rec.Count("hook.wake", len(w.wakes))
 	rec.Count("hook.arm", w.arms)
+	rec.Count("hook.timer", w.timerHits)
 	rec.Count("job_starts."+w.mode, len(w.starts))
 	w.mu.Unlock()
 	rec.Case(idx, key, nontrivial)
@@ -505,6 +582,6 @@ func finishCase(idx int, w *world, res mon.BubbleResult, key string) {
 		if len(d) > 60 {
 			d = d[:60]
 		}
-		rec.Sample(map[string]any{"mode": w.mode, "history": w.history, "events": d})
+		rec.Sample(map[string]any{"mode": w.mode, "history": w.hist(), "events": d})
 	}
 }
